@@ -231,6 +231,8 @@ pub fn plan_at(cfg: &RunCfg, stage: &Stage, index: u64, point: Option<usize>) ->
             let set = sweep::sweep_plans(seed, &restrict);
             set.plans[point.unwrap_or(0).min(set.plans.len() - 1)].clone()
         }
+        StageKind::SmallValues => crate::gen::small_value_plan(index).expect("index in range"),
+        StageKind::ShortInputs(n) => crate::gen::short_input_plan(index, n).expect("index in range"),
         _ => batch::plan_for(stage, seed, &restrict),
     }
 }
